@@ -103,8 +103,10 @@ func (b *Bytes) Set(src Blob, destStart int64) (n int, err error) {
 	if destStart > int64(b.Len()) {
 		return 0, fmt.Errorf("Offset out of bounds: %d", destStart)
 	}
+	// read src before locking: src may share this blob's mutex (a view of b, or b itself)
+	srcBytes := src.Bytes()
 	b.mu.Lock()
-	n = copy(b.bytes[destStart:], src.Bytes())
+	n = copy(b.bytes[destStart:], srcBytes)
 	b.mu.Unlock()
 	return n, nil
 }
